@@ -79,6 +79,8 @@ def token_strings(ctx):
 def gen_docs(ctx, quick, thorough):
     docs = list(markupgen.CORPUS)
     docs += [markupgen.document(ctx.rng, soup=ctx.rng.random() < 0.3) for _ in range(ctx.budget(quick, thorough))]
+    # U+FEFF is an ordinary character of a str document (only byte input has a byte-order mark): at the start and elsewhere
+    docs += ['\ufeff' + d for d in docs[:60]] + ['\ufeff<?xml version="1.0"?><p>x</p>', '\ufeff', '<p>\ufeffx</p>\ufeff', '\ufeff\ufeff<p a="1">x</p>']
     return docs
 
 
